@@ -271,7 +271,7 @@ func runPropertyCheck(e *Engine, prop, tier string, seed int, t0 time.Time) int 
 	cov := map[string]interface{}{
 		"obligations":              nObl,
 		"discharged":               nDis,
-		"checker_cmd":              fmt.Sprintf("/verif/bin/govc check -p %s -tier %s  (z3-new 5.1.0 | cvc5 1.0.3 | z3 4.8.12 raced per obligation, timeout %ds)", prop, tier, timeout),
+		"checker_cmd":              fmt.Sprintf("/verif/bin/govc check -p %s -tier %s  (z3-new 5.1.0 | cvc5 1.0.3 | z3 4.8.12 | z3-new without equation elimination | hypothesis-sliced z3-new raced per obligation, timeout %ds; at most 6 undecided obligations are retried once alone with 3x the limit)", prop, tier, timeout),
 		"trusted_base":             append(append([]string{}, baseTrusted...), cfg.trusted...),
 		"functions_under_contract": fl,
 		"by_backend":               byBackend,
